@@ -6,10 +6,11 @@ model stage : MC_JsonGrammar — the byte-level PDA of JsonGrammar.tla explored 
               (=> Viable = longest extendable prefix), the cap rejects exactly at cap+1, the
               surrogate-pairing automaton accepts a subset of the RFC automaton.
               MC_JsonAbnf — the PDA accepts exactly the strings derivable from the RFC 8259 ABNF
-              (an independent, set-valued transcription of the grammar) for all strings <= 4 (quick) / <= 5
-              (thorough) over three 13-byte alphabets.   MC_Bytes — line/column folds = definitional forms.
-replay      : Gen_JsonGrammar enumerates ALL strings <= 5 (quick; <= 6 thorough for the
-              structural alphabet) over three 13-byte alphabets with accept flag, Viable and the line/column table; run through
+              (an independent, set-valued transcription of the grammar) for all strings <= 4/4/3 (quick) / <= 5/5/4
+              (thorough) over three 13-byte alphabets A (structure+numbers), B (escapes, literal
+              names, LF), C (UTF-8 edges, control, CR).   MC_Bytes — line/column folds = definitional forms.
+replay      : Gen_JsonGrammar enumerates ALL strings <= 5/4/4 (quick; <= 6/5/5 thorough)
+              over the alphabets A/B/C with accept flag, Viable and the line/column table; run through
               succinctly::json::validate::validate.
 trace       : number / keyword / top-level / escape / surrogate probes, nesting 126..131 (arrays,
               objects, mixed, siblings), every byte value substituted and inserted at every offset
@@ -129,14 +130,11 @@ def run(ctx):
         vlib.model_check(ctx, "MC_Bytes.tla", "MC_Bytes.cfg", workers=6, timeout=600)
         vlib.model_check(ctx, "MC_JsonGrammar.tla", "MC_JsonGrammar_quick.cfg" if q else "MC_JsonGrammar_thorough.cfg",
                          workers=6, timeout=3000)
-        for cfg in (["MC_JsonAbnf_A4.cfg", "MC_JsonAbnf_B4.cfg"] if q else
-                    ["MC_JsonAbnf_A5.cfg", "MC_JsonAbnf_B5.cfg", "MC_JsonAbnf_C4.cfg"]):
-            vlib.model_check(ctx, "MC_JsonAbnf.tla", cfg, workers=6, timeout=3000)
+        vlib.model_check(ctx, "MC_JsonAbnf.tla", "MC_JsonAbnf_quick.cfg" if q else "MC_JsonAbnf_thorough.cfg",
+                         workers=6, timeout=3000)
 
     # ---- spec -> impl
-    for cfg, name in ([("Gen_JsonGrammar_A5.cfg", "A5"), ("Gen_JsonGrammar_B4.cfg", "B4"), ("Gen_JsonGrammar_C4.cfg", "C4")] if q else
-                      [("Gen_JsonGrammar_A6.cfg", "A6"), ("Gen_JsonGrammar_B5.cfg", "B5"), ("Gen_JsonGrammar_C5.cfg", "C5")]):
-        _gen_replay(ctx, cfg, name)
+    _gen_replay(ctx, "Gen_JsonGrammar_quick.cfg" if q else "Gen_JsonGrammar_thorough.cfg", "q" if q else "t")
 
     # ---- impl -> spec
     b = vlib.harness_bin("c08")
@@ -180,4 +178,19 @@ def run(ctx):
     ]
 
 
-# MUTANTS: see bottom of file after testing
+# MUTANTS (scratch worktree under /tmp, VERIF_REPO=<worktree> ./check C08, quick tier), json/validate.rs:
+#  1 enter_nested: nesting_depth >= MAX -> >                      CAUGHT trace (nest family, depth 129 accepted)
+#  2 validate_escape: accept \v                                   CAUGHT trace (esc probes) 
+#  3 validate_number: LeadingZero test disabled (if false)         NOT a semantic change for the property: "01" is
+#       still rejected, at the same offset, by the caller (TrailingContent / expected ',' or ']') -- only the
+#       error kind changes, which the statement does not constrain.  Equivalent mutant; replaced by 3b.
+#  3b validate_number: '0' arm merged into the digit run (leading zeros really accepted)
+#                                                                  CAUGHT replay ("00", "01" accepted)
+#  4 skip_whitespace: CR no longer bumps `line`                    CAUGHT trace (line/column after CR)
+#  5 validate_utf8_char: max 0x10FFFF -> 0x1FFFFF                  CAUGHT trace (F4 90 80 80 in a string accepted)
+#  6 validate: trailing-content test disabled                      CAUGHT replay + trace
+#  7 validate_keyword: error column not rewound to keyword start   CAUGHT replay/trace (line/column)
+#  8 validate_number: exponent without digits accepted             CAUGHT replay ("1e" accepted)
+#  9 validate_utf8_char: surrogate test for 3-byte sequences dropped   CAUGHT replay ("\\xED\\xA0\\x80: offset beyond viable prefix) + trace
+# 10 validate_escape: 0xD7FF treated as a high surrogate           CAUGHT (UnpairedSurrogate class must match the
+#       pairing automaton: "\uD7FF" is not an unpaired surrogate -> class unpaired-surrogate-verdict-wrong)
